@@ -266,7 +266,7 @@ static size_t v_strspn(const char *s, const char *set) { size_t n = 0; while (s[
 static size_t v_strcspn(const char *s, const char *set) { size_t n = 0; while (s[n] && !strchr(set, s[n])) n++; return n; }
 static char *v_strpbrk(const char *s, const char *set) { while (*s) { if (strchr(set, *s)) return (char *)s; s++; } return 0; }
 static char *v_getenv(const char *name) { return !strcmp(name, "LBZIP2") ? env_val[0] : !strcmp(name, "BZIP2") ? env_val[1] : !strcmp(name, "BZIP") ? env_val[2] : 0; }
-void v_exit(int code) { exit_code = code; ended = true; if (H == 99) { WITNESS("options_refused"); PROP(code == 1, "refused options exit with status 1"); CUT(); } end_of_process(); CUT(); }
+void v_exit(int code) { exit_code = code; ended = true; if (H == 99) { WITNESS("options_refused_at_exit"); PROP(code == 1, "refused options exit with status 1"); CUT(); } end_of_process(); CUT(); }
 
 /* stdio of main.c goes to the model (defined here so that the harness code above keeps the real printf) */
 #define fprintf v_fprintf
